@@ -2,7 +2,7 @@ from __future__ import annotations
 
 import typing as t
 
-from typelib.codecs import Codec, DecoderT, EncoderT, codec
+from typelib.codecs import Codec, DecoderT, EncoderT, _isverbatim, codec
 from typelib.marshals import AbstractMarshaller, marshal, marshaller
 from typelib.py import compat, inspection, refs
 from typelib.unmarshals import AbstractUnmarshaller, unmarshal, unmarshaller
@@ -65,5 +65,3 @@ def decode(
     return unmarshalled
 
 
-def _isverbatim(t: t.Any) -> bool:
-    return inspection.isbytestype(inspection.origin(inspection.unwrap(t)))
